@@ -700,3 +700,12 @@ Proof.
   rewrite A in Hs. rewrite <- run_outs in Hs. rewrite A at 1. rewrite <- run_outs.
   exact (E St Hs).
 Qed.
+
+(* the responder sees each request once, at either node: no carrier — hence no link — yields two
+   RequestReceived *)
+Theorem two_node_responder_once cfA cfB ms (x : bool) :
+  NoDup (req_chans (log x (run2 (sys0 cfA cfB) ms))).
+Proof.
+  rewrite (node_projection cfA cfB ms x) at 1.
+  exact (proj1 (responder_once (if x then cfB else cfA) (evs_of (log x (run2 (sys0 cfA cfB) ms))))).
+Qed.
